@@ -67,6 +67,84 @@ Owners2 == { <<1, 97, 0>>, <<192, 12>>, <<1, 98, 0>>, <<1, 65, 0>>, <<0>> }
 Targets2 == { <<0>>, <<1, 98, 0>>, <<192, 12>>, <<1, 97, 0>>, <<1, 66, 0>>, <<192, 19>>, <<192, 31>> }
 
 ---------------------------------------------------------------------------
+(* Limit shapes (family L): names at the 253/254/255/256/257-octet boundary, *)
+(* uncompressed (few long labels, many one-octet labels) and completed by    *)
+(* a pointer into the question name, as question name and as owner of a      *)
+(* record in each of the three record sections; every section has a record   *)
+(* so that the long owner has to be skipped to reach what follows.           *)
+
+F(n, v) == [i \in 1..n |-> v]
+Lab(n, c) == <<n>> \o F(n, c)
+RECURSIVE Labs(_, _)
+Labs(lens, c) == IF lens = <<>> THEN <<>> ELSE Lab(Head(lens), c) \o Labs(Tail(lens), c)
+LQShapes == { <<63, 63, 63, 61>>, <<63, 63, 63, 62>>, <<63, 63, 63, 60>>, <<63, 63, 63, 59>>,
+              F(127, 1), F(128, 1), F(126, 1), <<3>> }
+\* owners: <<"U", label lengths>> or <<"P", prefix label lengths, pointer target>>
+LOwners == { <<"U", l>> : l \in LQShapes } \cup
+           { <<"P", <<63>>, 76>>, <<"P", <<1, 61>>, 76>>, <<"P", <<1, 62>>, 76>>, <<"P", <<>>, 12>>,
+             <<"P", <<63, 63>>, 140>>, <<"P", <<63, 63, 1>>, 140>>, <<"P", <<62>>, 76>> }
+LOwnerOctets(o) ==
+  IF o[1] = "U" THEN Labs(o[2], 98) \o <<0>>
+  ELSE Labs(o[2], 98) \o <<192 + (o[3] \div 256), o[3] % 256>>
+PlainA(owner) == owner \o <<0, 1, 0, 1, 0, 0, 0, 60, 0, 4, 1, 2, 3, 4>>
+LMsg(qs, sec, o) ==
+  Hdr(<<32768, 1, 1, 1, 1>>) \o Labs(qs, 97) \o <<0, 0, 1, 0, 1>>
+    \o PlainA(IF sec = 1 THEN LOwnerOctets(o) ELSE <<0>>)
+    \o PlainA(IF sec = 2 THEN LOwnerOctets(o) ELSE <<0>>)
+    \o PlainA(IF sec = 3 THEN LOwnerOctets(o) ELSE <<0>>)
+LStarts(qs, sec) ==
+  LET qend == 12 + Len(Labs(qs, 97)) + 5 IN <<12, qend + (sec - 1) * 15>>
+
+---------------------------------------------------------------------------
+(* Typed RDATA with hostile inner structure (family T): the types whose      *)
+(* RDATA has internal framing.  The specification makes no statement on      *)
+(* their well-formedness (k = "opaque"); the point is the implementation      *)
+(* side: parsing yields a value or an error, and a value can be displayed,    *)
+(* iterated, compared, hashed, measured and composed without failure.         *)
+
+BMs == { <<>>, <<0, 0>>, <<0, 1, 64>>, <<0, 1, 0>>, <<0, 32>> \o F(32, 1), <<0, 33>> \o F(33, 1),
+         <<0, 34>> \o F(34, 1), <<1, 1, 1, 0, 1, 64>>, <<0, 1, 64, 0, 1, 64>>, <<0, 1, 64, 7>>, <<0>>,
+         <<0, 2, 1>>, <<0, 1, 64, 1, 0>>, <<0, 0, 1, 1, 1>>, <<255, 32>> \o F(32, 255) }
+BMs3 == { <<>>, <<0, 0>>, <<0, 1, 64>>, <<0, 33>> \o F(33, 1), <<0, 1, 64, 0, 1, 64>> }
+SvcParamsAlts == { <<>>, <<0, 1, 0, 0>>, <<0, 1, 0, 3, 2, 104, 50>>, <<0, 1, 0, 5, 2, 104>>,
+         <<0, 1, 0, 3, 5, 104, 50>>, <<0, 3, 0, 2, 1, 187>>, <<0, 3, 0, 1, 1>>, <<0, 0, 0, 2, 0, 1>>,
+         <<0, 0, 0, 1, 0>>, <<0, 0, 0, 0>>, <<0, 2, 0, 0, 0, 1, 0, 0>>,
+         <<0, 3, 0, 2, 1, 187, 0, 3, 0, 2, 1, 187>>, <<0, 4, 0, 3, 1, 2, 3>>, <<0, 4, 0, 0>>,
+         <<0, 6, 0, 15>> \o F(15, 1), <<0, 1, 0>>, <<0, 5, 0, 1, 7>>, <<255, 255, 0, 0>> }
+TsigBody(maclen, mac, otherlen, other) ==
+  <<0>> \o F(6, 0) \o <<1, 44>> \o EncU16(maclen) \o mac \o <<0, 0, 0, 0>> \o EncU16(otherlen) \o other
+
+HostileRD(t) ==
+  CASE t = 47 -> {<<0>> \o b : b \in BMs} \cup {<<192, 12, 0, 1, 64>>, <<1, 98, 0, 0, 1, 64>>, <<>>}
+    [] t = 50 -> {<<1, 0, 0, 0>> \o sa \o ha \o b :
+                    sa \in {<<0>>, <<1, 171>>, <<5, 1>>},
+                    ha \in {<<0>>, <<2, 7, 7>>, <<20>> \o F(20, 7), <<255, 1>>}, b \in BMs3}
+    [] t = 51 -> { <<1, 0, 0, 0, 0>>, <<1, 0, 0, 0, 1, 171>>, <<1, 0, 0, 0, 4, 1>>, <<1, 0, 0, 0>>, <<1, 0, 0, 0, 0, 9>> }
+    [] t = 16 -> { <<>>, <<0>>, <<1, 97>>, <<5, 97>>, <<1, 97, 0>>, <<255>>, <<0, 0, 1, 98>>, <<1, 97, 2, 98>> }
+    [] t = 13 -> { <<1, 97, 1, 98>>, <<1, 97>>, <<1, 97, 5, 98>>, <<0, 0>>, <<1, 97, 1, 98, 7>>, <<>> }
+    [] t \in {64, 65} -> {<<0, 1>> \o tg \o pa : tg \in {<<0>>, <<192, 12>>}, pa \in SvcParamsAlts}
+                          \cup {<<0, 0, 0>>, <<0, 0, 0, 0, 1, 0, 0>>, <<0>>}
+    [] t = 45 -> { <<10, 0, 2>>, <<10, 0, 2, 1, 2>>, <<10, 1, 2, 1, 2, 3, 4>>, <<10, 1, 2, 1, 2>>,
+                   <<10, 2, 2>> \o F(16, 1), <<10, 2, 2, 1>>, <<10, 3, 2, 0>>, <<10, 3, 2, 192, 12>>,
+                   <<10, 3, 2, 1, 97>>, <<10, 4, 2>>, <<10, 255, 2, 1>>, <<10>>, <<>> }
+    [] t = 250 -> { TsigBody(0, <<>>, 0, <<>>), TsigBody(2, <<1, 2>>, 6, F(6, 1)), TsigBody(5, <<1>>, 0, <<>>),
+                    TsigBody(0, <<>>, 9, <<1>>), TsigBody(0, <<>>, 2, <<1, 2>>), <<0>> \o F(5, 0), <<192, 12>> \o F(16, 0) }
+    [] t = 46 -> { F(18, 0) \o <<0>>, F(18, 0) \o <<192, 12>>, F(17, 0), F(18, 0) \o <<0, 1, 2>>,
+                   <<0, 47>> \o F(16, 0) \o <<1, 97, 0>>, F(18, 0) \o <<64>> }
+    [] t = 35 -> { <<0, 1, 0, 1, 1, 85, 0, 0, 0>>, <<0, 1, 0, 1, 5, 85>>, <<0, 1, 0, 1, 0, 0, 0, 192, 12>>,
+                   <<0, 1, 0, 1, 0, 0, 0>>, <<0, 1, 0>> }
+    [] t = 257 -> { <<0, 5, 105, 115, 115, 117, 101, 97>>, <<0, 0>>, <<0, 9, 105>>, <<0>>, <<>>, <<128, 1, 97>> }
+    [] t = 48 -> { <<1, 1, 3, 8>>, <<1, 1, 3>>, <<1, 1, 3, 8, 1, 2>>, <<>> }
+    [] t = 43 -> { <<0, 1, 8, 2>>, <<0, 1, 8>>, <<0, 1, 8, 2, 7, 7>> }
+    [] t = 33 -> { <<0, 1, 0, 1, 0, 80, 0>>, <<0, 1, 0, 1, 0, 80, 192, 12>>, <<0, 1, 0, 1, 0, 80>>, <<0, 1, 0, 1, 0, 80, 0, 7>> }
+    [] t = 63 -> { <<0, 0, 0, 1, 1, 1>>, <<0, 0, 0, 1, 1, 1>> \o F(48, 7), <<0, 0, 0, 1, 1>>, <<0, 0, 0, 1, 9, 9, 1>> }
+    [] t \in {52, 44, 61, 10} -> { <<>>, <<1>>, <<1, 1, 1, 7>>, <<1, 1>> }
+    [] t \in {39, 17, 14} -> { <<0>>, <<192, 12>>, <<1, 97, 0, 7>>, <<0, 0>>, <<192, 12, 0>>, <<192, 12, 192, 12>>, <<64>>, <<>> }
+    [] OTHER -> { <<>> }
+TTypes == {47, 50, 51, 16, 13, 64, 65, 45, 250, 46, 35, 257, 48, 43, 33, 63, 52, 44, 61, 10, 39, 17, 14}
+HT == { <<32768, 1, 1, 0, 0>>, <<32768, 1, 0, 0, 1>> }
+
+---------------------------------------------------------------------------
 (* two-phase choice so that TLC's workers share the enumeration *)
 
 Init == ph = 0 /\ sel = <<>> /\ m = <<>> /\ nw = [p |-> 0, used |-> 0, st |-> "off"]
@@ -80,6 +158,8 @@ Phase1 ==
      \/ \E h \in HR, q \in Q0, o \in Owners : sel' = <<"R", h, q, o>>
      \/ \E h \in HRR, o \in Owners2 : sel' = <<"RR", h, o>>
      \/ sel' = <<"S">>
+     \/ \E qs \in LQShapes, sec \in 1..3 : sel' = <<"L", qs, sec>>
+     \/ \E h \in HT, t \in TTypes : sel' = <<"T", h, t>>
 
 Finish(msg) == ph' = 2 /\ m' = msg /\ nw' = NWInit(msg) /\ UNCHANGED sel
 
@@ -99,6 +179,13 @@ Phase2 ==
                      \o Rec(sel[3], T_CNAME, t1, 0) \o Rec(o2, T_CNAME, t2, 0))
      \/ /\ sel[1] = "S"          \* short and header-only messages
         /\ \E n \in 0..12 : Finish([i \in 1..n |-> IF i = 5 THEN 0 ELSE 1])
+     \/ /\ sel[1] = "L"          \* the finished state remembers where the long names start
+        /\ \E o \in LOwners :
+              /\ ph' = 2 /\ m' = LMsg(sel[2], sel[3], o) /\ nw' = NWInit(m')
+              /\ sel' = <<"Ldone", LStarts(sel[2], sel[3])>>
+     \/ /\ sel[1] = "T"
+        /\ \E rd \in HostileRD(sel[3]) :
+              Finish(Hdr(sel[2]) \o <<1, 97, 0, 0, 1, 0, 1>> \o Rec(<<192, 12>>, sel[3], rd, 0))
 
 \* the name walk at offset 12 of the finished message, one step per action:
 \* exactly the case analysis of Wire!NameWalk
@@ -137,7 +224,10 @@ WalkAgrees ==
 
 \* every offset where a name can start in these messages (bodies are short;
 \* the cap only cuts the zero padding of SOA RDATA)
-Positions == IF Len(m) < 12 THEN {} ELSE 12..Min(Len(m) - 1, 12 + (IF Big THEN 24 ELSE 10))
+Positions ==
+  IF Len(m) < 12 THEN {}
+  ELSE IF sel[1] = "Ldone" THEN {sel[2][1], sel[2][2]}
+  ELSE 12..Min(Len(m) - 1, 12 + (IF Big THEN 24 ELSE 10))
 
 \* The laws, individually (for explanation runs) ...
 NameFuelSufficient == Done => \A p \in Positions : NameFuelSufficientAt(m, p)
@@ -167,7 +257,9 @@ WireLaws == (Done /\ ~IsShort(m)) =>
 (* S->I: every message with its projection; dev lists, per open-able        *)
 (* deviation, the components that differ from the ideal                     *)
 
-Starts == IF Len(m) <= 12 THEN <<>> ELSE [i \in 1..Min(Len(m) - 12, 8) |-> 11 + i]
+Starts == IF Len(m) <= 12 THEN <<>>
+          ELSE IF sel[1] = "Ldone" THEN sel[2]
+          ELSE [i \in 1..Min(Len(m) - 12, 8) |-> 11 + i]
 
 DevI == INSTANCE Wire WITH Dev <- DevNames
 
@@ -198,7 +290,9 @@ NewViewConsistent == (Done /\ ~IsShort(m)) =>
                                    /\ \A i \in 1..Len(S.sec[s].items) : S.sec[s].items[i][7].ok)
 
 \* C19: the same messages, read item by item and as a whole by both codecs
-CStarts == IF Len(m) <= 12 THEN <<>> ELSE [i \in 1..Min(Len(m) - 12, 10) |-> 11 + i]
+CStarts == IF Len(m) <= 12 THEN <<>>
+           ELSE IF sel[1] = "Ldone" THEN sel[2]
+           ELSE [i \in 1..Min(Len(m) - 12, 10) |-> 11 + i]
 EmitCodec == (Done /\ Len(m) >= 12) =>
   LET v == CodecView(FALSE, m, CStarts)
       vn == CodecView(TRUE, m, CStarts)
